@@ -288,12 +288,18 @@ def abstract_file(draw, tier="quick", max_sections=5, neg=None):
             lo, hi = {0x70: (0x70, 0x73), 0x83: (0x83, 0x83), 0x84: (0x84, 0xA3)}[base]
             nl = draw(st.integers(1, 12))
             raws = []
+            ndx_mode = draw(st.sampled_from(["running", "const", "random"]))
             for j in range(nl):
                 t = base if j == 0 else draw(st.integers(lo, hi))
-                raws.append((t, draw(st.binary(min_size=0, max_size=40)), draw(st.sampled_from([b"", b"\x5a"]))))
+                ln = (t, draw(st.binary(min_size=0, max_size=40)), draw(st.sampled_from([b"", b"\x5a"])))
+                if ndx_mode == "const":
+                    ln = ln + (7,)
+                elif ndx_mode == "random":
+                    ln = ln + (draw(st.integers(0, 0xFFFF)),)
+                raws.append(ln)
             s["raw_lines"] = raws
             s["image"] = b""
-            cands = [j for j, (t, f, tr) in enumerate(raws) if j and t != base and t not in BM.SECTION_KINDS]
+            cands = [j for j, ln in enumerate(raws) if j and ln[0] != base and ln[0] not in BM.SECTION_KINDS]
             s["group_breaks"] = sorted(draw(st.lists(st.sampled_from(cands), max_size=2, unique=True))) if cands else []
         if k["type"] is not None:
             instrs = []
